@@ -4,7 +4,7 @@
    language keeps the collection invariant (C11). *)
 From Coq Require Import List NArith ZArith Bool Lia Sorted.
 From Coq.Strings Require Import Byte.
-From PM Require Import Base Lemmas Text TextLemmas Model Skeleton Segs Quals Quals2 Quals3 Quals4 Quals5 DecQual Order Builder C14 Exec.
+From PM Require Import Base Lemmas Text TextLemmas Model Skeleton Segs Quals Quals2 Quals3 Quals4 Quals5 DecQual Order Builder C14 C06 Exec.
 Import ListNotations.
 Local Open Scope N_scope.
 
@@ -218,3 +218,74 @@ Proof.
     unfold q_insert, check_key. rewrite Hck. cbn [bind]. destruct (search cfg _ _); eexists; reflexivity.
 Qed.
 End BS.
+
+(* ---------------- C06: the executed languages panic only where documented ---------------- *)
+Section NOPANIC. Variable cfg : config.
+Hypothesis Hasc : tbl_ascii_ok cfg = true.
+Hypothesis Hksp : key_special_ascii cfg = true.
+Hypothesis Hcap : cap_saturating cfg = true.
+Hypothesis Hck : valid_key cfg s_checksum = true.
+Hypothesis Hrp : valid_key cfg s_repo = true.
+
+Lemma found_nth q k m i : QInv cfg q -> check_key cfg k = Ok m -> search cfg q m = Found i -> exists kv, nth_error q i = Some kv.
+Proof.
+  intros HQ Ec Es. destruct (check_key_ok cfg k m Ec) as [Hv Hm]. unfold search in Es. rewrite Hm in Es.
+  pose proof (search_found_in_bounds cfg Hasc Hksp q k i HQ Hv Es) as Hlt.
+  destruct (nth_error q i) eqn:E; [eexists; reflexivity|]. apply nth_error_None in E. lia.
+Qed.
+Lemma cap_ok m : cs_cap_panics cfg m = false.
+Proof. unfold cs_cap_panics. rewrite Hcap. reflexivity. Qed.
+Lemma insert_valid_ok q k v : valid_key cfg k = true -> exists q', q_insert cfg q k v = Ok q'.
+Proof. intros Hv. unfold q_insert, check_key. rewrite Hv. cbn [bind]. destruct (search cfg q _); eexists; reflexivity. Qed.
+(* Qualifiers / Entry / typed accessors: a panic is possible only for Index / IndexMut of an absent (or invalid) key *)
+Theorem qxstep_panics_only_when_documented q o : QInv cfg q -> snd (qxstep cfg q o) = XoPanic ->
+  exists k, (o = QIdx k \/ exists v, o = QIdxSet k v) /\ q_get cfg q k = None.
+Proof.
+  intros HQ. destruct o; cbn [qxstep].
+  - destruct (q_insert cfg q k v); discriminate.
+  - destruct (q_remove cfg q k); discriminate.
+  - discriminate.
+  - destruct (q_get cfg q k); discriminate.
+  - discriminate.
+  - destruct (q_get cfg q k) eqn:E; [discriminate|]. intros _. exists k. split; [left; reflexivity|exact E].
+  - destruct (q_get cfg q k) eqn:E; [discriminate|]. intros _. exists k. split; [right; eexists; reflexivity|exact E].
+  - discriminate.
+  - discriminate.
+  - discriminate.
+  - discriminate.
+  - discriminate.
+  - destruct (check_key cfg k) as [m|] eqn:Ec; [|discriminate]. destruct (search cfg q m) as [i|i] eqn:Es; [|discriminate].
+    destruct (found_nth q k m i HQ Ec Es) as [kv ->]. discriminate.
+  - destruct (check_key cfg k) as [m|] eqn:Ec; [|discriminate]. destruct (search cfg q m) as [i|i] eqn:Es; [|discriminate].
+    destruct (found_nth q k m i HQ Ec Es) as [kv ->]. discriminate.
+  - destruct (check_key cfg k) as [m|] eqn:Ec; [|discriminate]. destruct (search cfg q m) as [i|i] eqn:Es; [|discriminate].
+    destruct (found_nth q k m i HQ Ec Es) as [kv ->]. discriminate.
+  - destruct (check_key cfg k) as [m|] eqn:Ec; [|discriminate]. destruct (search cfg q m) as [i|i] eqn:Es; [|discriminate].
+    destruct (found_nth q k m i HQ Ec Es) as [kv ->]. discriminate.
+  - destruct (check_key cfg k) as [m|] eqn:Ec; [|discriminate]. destruct (search cfg q m) as [i|i] eqn:Es; [|discriminate].
+    destruct (found_nth q k m i HQ Ec Es) as [kv ->]. discriminate.
+  - destruct (check_key cfg k) as [m|] eqn:Ec; [|discriminate]. destruct (search cfg q m) as [i|i] eqn:Es; [|discriminate].
+    destruct (found_nth q k m i HQ Ec Es) as [kv ->]. discriminate.
+  - destruct (check_key cfg k) as [m|] eqn:Ec; [|discriminate]. destruct (search cfg q m) as [i|i] eqn:Es; [|discriminate].
+    destruct (found_nth q k m i HQ Ec Es) as [kv ->]. discriminate.
+  - discriminate.
+  - destruct (insert_valid_ok q s_repo u Hrp) as [q' ->]. discriminate.
+  - discriminate.
+  - discriminate.
+  - discriminate.
+  - rewrite cap_ok. destruct (cs_to_text (crun cfg ops)) as [txt|]; [|discriminate]. destruct (insert_valid_ok q s_checksum txt Hck) as [q' ->]. discriminate.
+  - destruct (q_get cfg q s_checksum) as [v|]; [|discriminate]. destruct (cs_try_from cfg v); discriminate.
+  - discriminate.
+Qed.
+(* GenericPurlBuilder: no call panics *)
+Theorem xstep_never_panics {T} (b : T * parts) o : xstep cfg b o <> Err StopPanic.
+Proof.
+  destruct b as [t p]. destruct o; cbn [xstep]; try discriminate.
+  - destruct (q_insert cfg (p_quals p) k v); discriminate.
+  - rewrite cap_ok. destruct (cs_to_text (crun cfg ops)) as [txt|]; [|discriminate]. destruct (insert_valid_ok (p_quals p) s_checksum txt Hck) as [q' ->]. discriminate.
+  - destruct (insert_valid_ok (p_quals p) s_repo s Hrp) as [q' ->]. discriminate.
+  - destruct (q_insert cfg (p_quals p) k v); discriminate.
+Qed.
+Theorem cs_text_never_panics m : cs_text_of cfg m <> CsPanic.
+Proof. unfold cs_text_of. rewrite cap_ok. destruct (cs_to_text m); discriminate. Qed.
+End NOPANIC.
